@@ -283,6 +283,84 @@ def _ns_case(via_rpc):
     return case
 
 
+WB_TMPL = """
+version: '2.0'
+name: @@WB@@
+workflows:
+  @@MAIN@@:
+    output:
+      got: <% $.get(got, none) %>
+    tasks:
+      t1:
+        workflow: @@SUB@@
+        publish:
+          got: <% task().result %>
+  @@SUB@@:
+    output:
+      which: in_workbook
+    tasks:
+      s1:
+        action: std.noop
+"""
+GLOBAL_SUB = """
+version: '2.0'
+@@SUB@@:
+  output:
+    which: global
+  tasks:
+    g1:
+      action: std.noop
+"""
+
+
+def _wb_case():
+    """short sub-workflow names inside a workbook resolve to the member of
+    the SAME workbook first (engine.utils.resolve_workflow_definition strips
+    the parent's own name from '<workbook>.<workflow>'), whatever characters
+    workbook and workflow names share"""
+    def case():
+        from vt.world import World
+        from mistral_lib import actions as ml
+        wb = choice('wb_name', ['wb', 'my.wb', 'fw', 'w', 'main', 'wb.'])
+        main = choice('main_name', ['main', 'wf', 'w', 'b-w'])
+        sub = choice('sub_name', ['sub', 'fw', 'bw', 'ma'])
+        assume(main != sub)
+        with_global = choice('global_sub', [True, False])
+        sig = 'C09.wb'
+        text = WB_TMPL.replace('@@WB@@', wb).replace(
+            '@@MAIN@@', main).replace('@@SUB@@', sub)
+        defs = [GLOBAL_SUB.replace('@@SUB@@', sub)] if with_global else []
+        w = World(defs, workbooks=[text])
+        with w:
+            wid = w.start('%s.%s' % (wb, main))
+            info = {'names': [wb, main, sub], 'global': with_global,
+                    'errors': [repr(e)[:200] for m, e in w.errors]}
+            check(wid is not None, 'workbook-workflow-not-started',
+                  dict(info, signature=sig + ':start'))
+            if wid is None:
+                return
+            w.run(result_of=lambda ev: ml.Result(data='ok'))
+            reach('ran')
+            if with_global:
+                reach('global-namesake')
+            root = w.wf_ex(wid)
+            info['executions'] = sorted(
+                (x['workflow_name'], x['state'])
+                for x in w.rows('WorkflowExecution'))
+            check(root['state'] == 'SUCCESS' and
+                  root['output'] == {'got': {'which': 'in_workbook'}},
+                  'short-name-not-resolved-inside-the-workbook',
+                  dict(info, signature=sig + ':resolution',
+                       output=root['output'], state=root['state']))
+            kids = [x for x in w.rows('WorkflowExecution')
+                    if x['task_execution_id']]
+            check(len(kids) == 1 and
+                  kids[0]['workflow_name'] == '%s.%s' % (wb, sub),
+                  'wrong-sub-workflow-started',
+                  dict(info, signature=sig + ':child'))
+    return case
+
+
 def _collide_case(key):
     def case():
         from vt.world import World
@@ -333,12 +411,15 @@ def _collide_case(key):
                      'symbolic; sub-workflows started in-process and through '
                      'the message bus; environment given at the root; the '
                      'three definitions placed by the solver in the '
-                     "caller's namespace, the default one or both; <= 1 "
+                     "caller's namespace, the default one or both; "
+                     'workbook members calling each other by short name '
+                     '(names from a catalogue sharing characters and dots, '
+                     'with / without a global namesake); <= 1 '
                      'out-of-order delivery',
             'thorough': '<= 2 out-of-order deliveries'},
     stubs=['minidb', 'QueueRPC', 'FakeScheduler', 'FakeExecutor',
            'post-commit queue inline', 'real YAQL'],
-    outside='workbook-relative names (C09.4), expressions as workflow name',
+    outside='expressions as workflow name',
     timeout=(400, 2400))
 def c09_e(ctx):
     """parent task state = child state, result = child output, the parent
@@ -355,6 +436,9 @@ def c09_e(ctx):
         yield Case('items/%s' % ('rpc' if via else 'inproc'),
                    _c09_case(ITEMS, 'items', via, k),
                    needed=['quiescent', 'has-child'])
+        if not via:
+            yield Case('workbook-names', _wb_case(),
+                       needed=['ran', 'global-namesake'])
         yield Case('namespaces/%s' % ('rpc' if via else 'inproc'),
                    _ns_case(via),
                    needed=['ran', 'fallback-to-default', 'leaf-in-both'])
